@@ -376,3 +376,51 @@ Definition ideal_recover (full : list (list byte)) (shards : list (option (list 
   : option (list (list byte)) :=
   if (length (filter (fun o => match o with Some _ => true | None => false end) shards) <? k)
      || negb (length shards =? length full) then None else Some full.
+
+(* ------------------------------------------------------------------ unit.go: UnitFromProto (wire level) *)
+(* What arrives from the network is a protobuf message: any number of shards of any lengths, a Merkle root and
+   proof siblings of any lengths. UnitFromProto turns it into a Unit or refuses it; it runs in the libp2p stream
+   handler without recover, so a run-time panic there takes the receiver down. *)
+Record wire_unit := mkWire { w_shards : list (list byte); w_root : list byte; w_siblings : list (list byte) }.
+Inductive wire_res :=
+| WOk (shards : list (list byte)) (root : list byte) (siblings : list (list byte))
+| WErr
+| WPanic.
+
+Definition all_len (n : nat) (l : list (list byte)) : bool := forallb (fun s => length s =? n) l.
+(* copy(dst[:], src) into a 32-byte array: truncated or zero-filled *)
+Definition into32 (s : list byte) : list byte := firstn 32 (s ++ repeat zero_byte 32).
+
+(* the decoder since /repo "fix: propeller UnitFromProto refuses malformed units": no shard -> error, every
+   shard as long as the first -> else error, root of exactly 32 bytes -> else error *)
+Definition from_proto (w : wire_unit) : wire_res :=
+  match w_shards w with
+  | [] => WErr
+  | s0 :: rest =>
+      if negb (all_len (length s0) rest) then WErr
+      else if negb (length (w_root w) =? 32) then WErr
+      else WOk (w_shards w) (w_root w) (map into32 (w_siblings w))
+  end.
+
+(* the decoder before the repair: shards[0] read unconditionally, lengths compared for shards[0..n-2] only (the
+   loop ranged over shards[1:] but indexed shards[i]), MessageRoot(slice) converted without a length check *)
+Definition from_proto_before_fix (w : wire_unit) : wire_res :=
+  match w_shards w with
+  | [] => WPanic
+  | s0 :: _ =>
+      if negb (all_len (length s0) (removelast (w_shards w))) then WErr
+      else if negb (length (w_root w) =? 32) then WPanic
+      else WOk (w_shards w) (w_root w) (map into32 (w_siblings w))
+  end.
+
+(* what the rest of the package takes for granted about a decoded unit *)
+Definition wire_wf (r : wire_res) : bool :=
+  match r with
+  | WOk sh root sib =>
+      match sh with
+      | [] => false
+      | s0 :: rest => all_len (length s0) rest && (length root =? 32) && all_len 32 sib
+      end
+  | WErr => true
+  | WPanic => false
+  end.
